@@ -208,7 +208,7 @@ class InsertSyncBarrier(ModulePass):
                     # operation): a later operation of one core on that buffer has to wait for all of them
                     if (
                         may_access_buffers(op_in_module, ctx)
-                        and isinstance(operand.type, builtin.MemRefType)
+                        and isinstance(operand.type, builtin.MemRefType | builtin.UnrankedMemRefType)
                         and operand in op_in_module.operands
                         and (dispatch_to_dm(user, ctx) or dispatch_to_compute(user, ctx))
                     ):
